@@ -127,32 +127,49 @@ structure TState where
 
 def TState.init : TState := ⟨0, [], [], .s16, .auto⟩
 
+/-- Directives that change the translator state. -/
+def sideEffect (t : TState) : Instr → TState
+  | .equ l n => { t with labels := (lower l, n) :: t.labels }
+  | .stacksize s => { t with ss := s }
+  | .programsize p => { t with ps := p }
+  | _ => t
+
+/-- `.ORG` below the current address. -/
+def orgBack (t : TState) : Instr → Bool
+  | .org a => decide (a < t.next)
+  | _ => false
+
 /-- `Translator::push`. -/
 def push (t : TState) (line : Line) : Except Panic TState :=
   match line with
   | .empty _ => .ok { t with out := t.out ++ [(line, [])] }
   | .label l _ => .ok { t with labels := (lower l, t.next) :: t.labels, out := t.out ++ [(line, [])] }
   | .instr i _ =>
-    if (match i with | .org a => decide (a < t.next) | _ => false) then .error .orgBackwards else
-    let bs := bols i t.next
-    let t := match i with
-      | .equ l n => { t with labels := (lower l, n) :: t.labels }
-      | .stacksize s => { t with ss := s }
-      | .programsize p => { t with ps := p }
-      | _ => t
-    -- `self.next_addr += bols.len() as u8`
-    let n := t.next + bs.length % 256
-    if n ≥ 256 then .error .addrOverflow else
-    .ok { t with next := n, out := t.out ++ [(line, bs)] }
+    if orgBack t i then .error .orgBackwards
+    -- `self.next_addr += bols.len() as u8` (the cast truncates, the addition is checked)
+    else if t.next + (bols i t.next).length % 256 ≥ 256 then .error .addrOverflow
+    else .ok { sideEffect t i with next := t.next + (bols i t.next).length % 256,
+                                   out := t.out ++ [(line, bols i t.next)] }
 
-/-- Substitute one placeholder (`finish`). -/
-def resolve (t : Labels) : BOL → Except Panic Nat
-  | .byte n => .ok n
-  | .label l => match t.find (lower l) with | some v => .ok v | none => .error .undefinedLabel
-  | .rel l cur =>
-    match t.find (lower l) with
-    | some target => .ok ((target + 256 - (cur + 2) % 256) % 256)
-    | none => .error .undefinedLabel
+/-- Substitute one placeholder (`finish`); `none` = the `expect("Labels must be defined")` panic. -/
+def resolve (t : Labels) : BOL → Option Nat
+  | .byte n => some n
+  | .label l => t.find (lower l)
+  | .rel l cur => (t.find (lower l)).map fun target => (target + 256 - (cur + 2) % 256) % 256
+
+def resolveAll (t : Labels) : List BOL → Option (List Nat)
+  | [] => some []
+  | b :: bs =>
+    match resolve t b, resolveAll t bs with
+    | some v, some vs => some (v :: vs)
+    | _, _ => none
+
+def resolveLines (t : Labels) : List (Line × List BOL) → Option (List (Line × List Nat))
+  | [] => some []
+  | (l, bs) :: rest =>
+    match resolveAll t bs, resolveLines t rest with
+    | some v, some vs => some ((l, v) :: vs)
+    | _, _ => none
 
 structure ByteCode where
   lines : List (Line × List Nat)
@@ -163,9 +180,9 @@ structure ByteCode where
 def ByteCode.bytes (b : ByteCode) : List Nat := b.lines.flatMap (·.2)
 
 def finish (t : TState) : Except Panic ByteCode :=
-  match t.out.mapM (fun (p : Line × List BOL) => (p.2.mapM (resolve t.labels)).map fun bs => (p.1, bs)) with
-  | .ok ls => .ok ⟨ls, t.ss, t.ps⟩
-  | .error e => .error e
+  match resolveLines t.labels t.out with
+  | some ls => .ok ⟨ls, t.ss, t.ps⟩
+  | none => .error .undefinedLabel
 
 /-- `Translator::compile`. -/
 def compile (p : Program) : Except Panic ByteCode :=
